@@ -1114,7 +1114,7 @@ func structDiff(a, b reflect.Value, path string, depth int) string {
 
 func init() {
 	core.Register("c02.loadN", &core.CheckDef{
-		Timeout: 120 * time.Second,
+		Timeout: 600 * time.Second,
 		Real: func(raw json.RawMessage) any {
 			var a c02LoadArgs
 			if err := json.Unmarshal(raw, &a); err != nil {
@@ -1212,6 +1212,12 @@ func init() {
 			return res
 		},
 		Judge: func(args, real, _ json.RawMessage) *core.Verdict {
+			// a Go panic inside a load is recovered per load and compared as an outcome (c02Observe).  What is left here is
+			// the whole case not answering (the watchdog fired: 400 loads on a busy machine, or a loader that hangs) or the
+			// process dying: neither says anything about determinism — totality is property C01 — so the case is skipped.
+			if c := core.Class(real); c == "hang" || c == "fatal" {
+				return core.Skip("case did not complete (" + c + "): no determinism verdict; totality is property C01")
+			}
 			if v := core.CrashVerdict(real); v != nil {
 				return v
 			}
